@@ -61,10 +61,10 @@ Do not edit or delete verif_hooks.go / verif_nohooks.go; keep the hook call `ver
 For each change k = 1,2,3 create __WT__/mutants/b<k>/ with patch.diff (from `git diff`, library files only, applies with `git apply` on the clean commit) and README.md (what changed, and for each property that could be affected a one-line argument why it still holds). Also create __WT__/mutants/go.mod containing `module mutants`. Restore the clean tree (`git checkout -- .`) after saving each patch; do not commit.
 Finish with a short report listing the three changes.
 '''
-themes=["randomness plumbing around the bounded draw: read raw words with io.ReadFull or through a helper, decode with encoding/binary, fetch the words needed by ONE public call through a small per-call buffer (no state kept between public calls, every 4-byte big-endian word still consumed in order and unused bytes never influencing anything), return 0 for n == 1 without reading, compute the rejection threshold with different but equal arithmetic; keep it exactly unbiased",
- "error handling and result construction: wrap errors with %w / custom error types / sentinel errors, reorder guard checks where every order yields an error for the same inputs, early returns, a helper that builds Password values, computing the entropy once per Generate call and storing it, strings.Builder in Password.String, preallocated token slices",
- "data structures: replace uses of the set package with map[rune]struct{} or sorted rune slices, build alphabets via sorted runes, keep the word list sorted and find title-cased twins by lookup, replace maps by slices where order does not matter for the result, avoid repeated string<->rune conversions; the results (kept sets, alphabets as sets, counts, entropies, distributions) must be identical",
- "CLI and token index: restructure cmd/opgen into functions with a config struct and a flag.FlagSet, reword usage and error messages (same exit statuses, same single stdout line, counts-only diagnostics on stderr), restructure Kind/MakeIndices/Tokenize with preallocated slices / switch statements / a single rune conversion (same results and errors for every input, never a panic)"]
+themes=["caching and precomputation done RIGHT: precompute at construction time (e.g. NewWordList stores the title-cased form of every kept word and the capitalisable count in the WordList it returns, immutable afterwards), sync.Once-guarded lazily built lookup tables that are keyed by nothing (package constants such as the class table) and never depend on earlier calls, per-call scratch buffers; NO process-wide state that depends on which recipes were used before, nothing shared that is written after construction; results bit-identical",
+ "numerics and bookkeeping: compute the character-recipe count with a different exact algorithm (big.Int only; e.g. inclusion-exclusion grouped by union, or dynamic programming over the required sets) and the entropy from it exactly as before (same float32 result up to at most one unit in the last place), count attempts/draws with differently structured loops (same number of attempts, same order of draws), compute SuccessProbability from exact big rationals rounded once at the end (may differ from the old float32 value by at most a few ulp, never across the refusal threshold for recipes whose exact success probability is outside 0.097..0.100)",
+ "defensive programming: validate inputs early (errors for exactly the same inputs as before), defensive copies of caller-supplied slices and strings, explicit bounds checks that turn impossible states into errors, named constants instead of literals, recover-free code paths, splitting long functions into helpers, replacing deprecated calls by equivalent ones ONLY where equivalence holds for every Unicode string (if in doubt keep the old call), more precise doc comments",
+ "the random-source boundary and separators: obtain random bytes through a tiny internal interface (still crypto/rand.Reader underneath, still 4-byte big-endian words, read in order, exactly as many words as before), restructure NewSFFunction/sfWrap and the seven presets as table-driven code (same alphabets, same entropies, same error behaviour: a failing separator recipe yields the empty separator with entropy 0), restructure WLRecipe.Entropy (it still calls the separator function exactly once per call, before anything else it did before)"]
 for i,t in enumerate(themes,int(os.environ.get('BSTART','1'))):
     if not os.path.isdir(RD+'/B%d'%i): continue
     open(RD+'/B%d.prompt.txt'%i,'w').write(ben.replace('__WT__',RD+'/B%d'%i).replace('__ALL__',allp).replace('__THEME__',t))
